@@ -85,6 +85,12 @@ func genP1Files(rng *rand.Rand, nf int) []scen.File {
 			// the shortest legal names: one UTF-16 code unit, and one surrogate pair
 			name = []string{"a", "7", "世", "Ω", "😀", "_"}[rng.Intn(6)]
 		}
+		if rng.Intn(7) == 0 {
+			// a data file named like the archive that will protect it: the
+			// base name of the next index file plus something that merely
+			// begins like an archive extension
+			name = p1Bases[p1BaseCounter%len(p1Bases)] + []string{".part1.rar", ".p01.txt", ".par.bak", ".parity", ".P02x", ".par2"}[rng.Intn(6)]
+		}
 		for used[name] {
 			name += "_"
 		}
@@ -147,7 +153,13 @@ func newP1Env(files []scen.File, nv int, create bool) (*p1env, error) {
 	}
 	if create {
 		var cerr error
-		if pi := core.Protect(func() { cerr = par1.Create(e.idx, e.paths, par1.CreateOptions{NumParityFiles: nv}) }); pi != nil {
+		if p1CreateHook != nil {
+			var hpi *core.PanicInfo
+			cerr, hpi = p1CreateHook(e.idx, e.paths, nv)
+			if hpi != nil {
+				return e, fmt.Errorf("Create panicked: %s [%s]", hpi.Msg, hpi.Frame)
+			}
+		} else if pi := core.Protect(func() { cerr = par1.Create(e.idx, e.paths, par1.CreateOptions{NumParityFiles: nv}) }); pi != nil {
 			return e, fmt.Errorf("Create panicked: %s [%s]", pi.Msg, pi.Frame)
 		}
 		if cerr != nil {
@@ -177,6 +189,9 @@ func newP1Env(files []scen.File, nv int, create bool) (*p1env, error) {
 func (e *p1env) volPath(v int) string {
 	return filepath.Join(e.dir, fmt.Sprintf("%s.p%02d", e.base, v))
 }
+
+// p1CreateHook, if set, writes the set instead of par1.Create.
+var p1CreateHook func(idx string, paths []string, nv int) (error, *core.PanicInfo)
 
 // index base names, some ending in characters of ".par"
 var p1Bases = []string{"arch", "data", "backup", "par", "a.p", "extra.", "set r", "backup 100%", "my%20file", "%d%s%"}
